@@ -84,14 +84,14 @@ Print Assumptions C07_table_size.
 (* non-vacuity *)
 Example C07_example_mandatory_plain :
   let s := srv0 [] None [bs "STARTTLS"; bs "AUTH PLAIN LOGIN"] [bs "AUTH PLAIN LOGIN"] HsOk in
-  let cfg := mkCfg Mandatory false Gen.smtp_auth_plain None (bs "mail.verif.test") false true true true in
+  let cfg := mkCfg Mandatory false Gen.smtp_auth_plain None (bs "mail.verif.test") false true true true true in
   clear_cmds (w_trace (snd (run (dial 8 cfg) (world0 s)))) = [VStartTLS; VEhlo] /\
   last_cmd (w_trace (snd (run (dial 8 cfg) (world0 s)))) = Some (VAuth (bs "PLAIN") (Some TPass)).
 Proof. vm_compute. auto. Qed.
 
 Example C07_example_notls_plain_refused :
   let s := srv0 [] None [bs "AUTH PLAIN LOGIN"] [] HsOk in
-  let cfg := mkCfg NoTLS false Gen.smtp_auth_plain None (bs "mail.verif.test") false true true true in
+  let cfg := mkCfg NoTLS false Gen.smtp_auth_plain None (bs "mail.verif.test") false true true true true in
   fst (run (dial 8 cfg) (world0 s)) = Err EUnenc /\
   clear_cmds (w_trace (snd (run (dial 8 cfg) (world0 s)))) = [VQuit; VEhlo].
 Proof. vm_compute. auto. Qed.
